@@ -18,7 +18,7 @@ ASSUMPTIONS = [
     "a Protocol member written as a plain `def` annotated AsyncIterator[...] counts as async-iterator nature (the correct typing spelling)",
     "annotations are compared as the strings found in __annotations__ (the three artefacts are rendered from the same text)",
 ]
-BOUND = {"quick": "13x13 shape pairs x 17 tag patterns + 51 in-process histories", "thorough": "same + 3-operation documents over the 4 overload/stream shapes (576 more)"}
+BOUND = {"quick": "14x14 shape pairs x 19 tag patterns + 51 in-process histories", "thorough": "same + 3-operation documents over the 4 overload/stream shapes (576 more)"}
 CHUNK = 4
 
 P = ops.param
@@ -36,6 +36,8 @@ SHAPES = {
     "json+stream206": ops.op("get", "/js", [], None, {"200": "json-model", "206": "octet"}),
     "sse+json201": ops.op("get", "/sj", [], None, {"200": "event-stream", "201": "json-model"}),
     "stream-default": ops.op("get", "/sd", [], None, {"default": "event-stream"}),   # no explicit 2xx: the streamed payload sits under `default`
+    # an operation whose NAME is a type name the generated code uses in annotations (date), next to operations with date parameters
+    "named-date": dict(ops.op("get", "/dt", [P("on", "query", False, "date")], None, {"200": "json-model"}), op_id_fixed="date"),
     "options": ops.op("options", "/p", [], None, {"204": "none"}),   # CORS-preflight style operation exported by gateways
     "head+trace": ops.op("head", "/ht/{id}", [P("id", "path", True, "integer")], None, {"200": "none"}),
     "bulk": ops.op("post", "/bulk", [], {"kind": "json-array-inline", "required": True}, {"204": "none"}),
@@ -48,6 +50,8 @@ TAG_PATTERNS = {
     # one consistent spelling per tag, in the styles real documents use (PascalCase, camelCase, reserved word, letter+digit, spaced)
     "pascal": (["DataSources"], ["DataSources"]), "camel": (["apiKeys"], ["apiKeys"]), "reserved": (["models"], ["models"]),
     "letter-digit": (["v1"], ["v1"]), "dot": (["x.y"], ["x-y"]), "slash": (["x/y"], ["x_y"]), "spaced-title": (["User Admin"], ["User Admin"]), "pascal+camel": (["DataSources"], ["apiKeys"]),
+    # untagged operations next to operations tagged with a spelling of the name used for untagged ones
+    "default-mix": (None, ["default"]), "default-mix-cap": (["Default"], None),
 }
 
 
@@ -78,7 +82,7 @@ def build(case):
     for i, s in enumerate(case["shapes"]):
         c = dict(SHAPES[s])
         c["tags"] = t[i % 2]
-        c["op_id"] = f"{s}Op{i}"
+        c["op_id"] = c.pop("op_id_fixed", None) or f"{s}Op{i}"
         cs.append(c)
     doc, meta = ops.build_doc(cs, auto_tag=False, auto_id=False)
     return doc
